@@ -161,13 +161,14 @@ theorem post_deleteMapEntry {st : St} (hI : Inv st) (left : Node) (index : Obj) 
     have hcur : st.cur < s.frames.size := by have := hI.cur; omega
     split
     · exact Post.pure hIs (by simp [OkO, okObj])
-    · next obj =>
-      have hobj := hr obj rfl
+    · next obj0 =>
+      refine Post.bind (post_valueOf hIs (hr obj0 rfl)) ?_
+      rintro obj s' hIs' _ ⟨rfl, hobj, _hnr⟩
       split
       · next big kvs =>
         simp only [okObj] at hobj
-        refine Post.bind (Q := fun res s'' => s'' = s ∧ ∀ k, res = some k → okPairs s.frames.size k = true)
-          (Post.liftR hIs (mapDelete_npr _ _) (fun res hres => ⟨rfl, fun k hk => by subst hk; exact mapDelete_ok hobj hres⟩)) ?_
+        refine Post.bind (Q := fun res s'' => s'' = s' ∧ ∀ k, res = some k → okPairs s'.frames.size k = true)
+          (Post.liftR hIs' (mapDelete_npr _ _) (fun res hres => ⟨rfl, fun k hk => by subst hk; exact mapDelete_ok hobj hres⟩)) ?_
         rintro res s'' hIs'' _ ⟨rfl, hk⟩
         split
         · exact Post.pure hIs'' (by simp [OkO, okObj])
@@ -177,7 +178,7 @@ theorem post_deleteMapEntry {st : St} (hI : Inv st) (left : Node) (index : Obj) 
           refine Post.bind (post_envSet hIs2 (by omega) id (val := .map big kvs') (by rw [hsz2]; simpa [okObj] using hk kvs' rfl)) ?_
           intro oerr s3 hIs3 hle' ho
           exact post_errOr hIs3 ho (by simp [okObj])
-      · exact Post.pure hIs okObj_err
+      · exact Post.pure hIs' okObj_err
   · exact Post.pure hI okObj_err
 
 theorem post_derefList : ∀ (l : List Obj) {st : St} (_ : Inv st) (_ : okList st.frames.size l = true),
